@@ -238,6 +238,17 @@ def build_harness(src, lib, extra_flags=(), extra_srcs=()):
     return exe, out
 
 
+def compile_probe(src, extra_flags=()):
+    """Does a small translation unit that instantiates a library template compile against the current tree?
+    (-fsyntax-only, no sanitizers).  Returns (ok, first error lines)."""
+    srcp = os.path.join(VERIF, src)
+    cmd = [CXX, '-std=c++20', '-fsyntax-only', '-w', '-D' + GUARD, '-I' + os.path.join(REPO, 'include'), '-I/usr/include/eigen3',
+           '-I' + os.path.join(VERIF, 'harness')] + list(extra_flags) + [srcp]
+    rc, out = sh(cmd, timeout=600)
+    errs = [l for l in out.split('\n') if 'error' in l][:3]
+    return rc == 0, '\n'.join(errs)[:1500]
+
+
 SAN_ENV = {'ASAN_OPTIONS': 'detect_leaks=0:abort_on_error=0:malloc_fill_byte=203:max_malloc_fill_size=1073741824:allocator_may_return_null=1',
            'UBSAN_OPTIONS': 'print_stacktrace=1:halt_on_error=1'}
 
